@@ -792,8 +792,16 @@ def rule_dictview(ctx):
         keytxt = None
         if isinstance(v, ast.Call) and isinstance(v.func, ast.Name) and v.func.id == "dict" and v.args and isinstance(v.args[0], ast.Call) \
                 and isinstance(v.args[0].func, ast.Name) and v.args[0].func.id == "zip" and len(v.args[0].args) == 2:
-            keytxt = ast.unparse(v.args[0].args[0])
-            valtxt = ast.unparse(v.args[0].args[1])
+            def resolved(e, depth=0):
+                # single-definition locals (also the result names of inlined private helpers) are read through
+                if isinstance(e, ast.Name) and depth < 4:
+                    ds = [s_.value for s_ in walk_shallow(fi.node) if isinstance(s_, ast.Assign) and any(
+                        isinstance(t, ast.Name) and t.id == e.id for t in s_.targets)]
+                    if len(ds) == 1:
+                        return resolved(ds[0], depth + 1)
+                return e
+            keytxt = ast.unparse(resolved(v.args[0].args[0]))
+            valtxt = ast.unparse(resolved(v.args[0].args[1]))
             if keytxt not in ("self.keys()", "[item.mnemonic for item in self]", "[i.mnemonic for i in self]"):
                 problems.append("keys are `%s`" % keytxt)
             if ".value" not in valtxt:
